@@ -172,7 +172,7 @@ type HistOpts struct {
 	WritePktPIDs  []uint16
 }
 
-var esPIDPool = []uint16{0x20, 0x21, 0x100, 0x101, 0x102, 0x1fa, 0x1ffe, 0x0fff, 0x1001, 0x0800}
+var esPIDPool = []uint16{0x20, 0x21, 0x40, 0x41, 0x42, 0x2fa, 0x1ffe, 0x0fff, 0x1001, 0x0800} // disjoint from the automatic range 0x100.. so that the model can attribute PIDs before it has seen a PMT
 
 func randomES(r *rand.Rand, rich bool) *astits.PMTElementaryStream {
 	types := []astits.StreamType{astits.StreamTypeMPEG1Video, astits.StreamTypeMPEG2Video, astits.StreamTypeMPEG1Audio, astits.StreamTypeMPEG2Audio, astits.StreamTypePrivateSection,
